@@ -24,7 +24,7 @@ BOUNDS = {
     "quick": "fresh POSC database per program; 22 creation requests (simple, default-category, alias category, legacy spelling, unknown with/without caption, "
              "empty, derived in dict/list/CreateDerived/operator form incl. same-type categories in different units and captions on derived maps); "
              "programs: request a, request b, one operation out of 14 with symbolic amounts, repeat both requests; all ordered pairs x seeded operation (about 500 programs)",
-    "thorough": "same requests; every ordered pair x every operation, plus 800 seeded programs with two chained operations",
+    "thorough": "same requests; every ordered pair x every operation, plus 6000 seeded programs with two chained operations",
 }
 ASSUMPTIONS = ["A-FP for the amounts", "state is discrete: the solver's contribution is that every value-dependent path of each step is covered; "
                "aliasing that needs more than the stated chain depth is outside the claim", "resolution model: a request resolves to (ordered (category,(unit,exp)) map, caption)"]
@@ -88,7 +88,7 @@ def items(tier, seed):
         for a, b in pairs:
             for o in OPS:
                 out.append({"a": a, "b": b, "ops": [o]})
-        for _ in range(800):
+        for _ in range(6000):
             a, b = rng.choice(pairs)
             out.append({"a": a, "b": b, "ops": [rng.choice(OPS), rng.choice(OPS)]})
     out.append({"a": "m", "b": "s", "ops": ["scalar_mul"], "canary": True})
